@@ -136,6 +136,21 @@ def run(ctx, prop):
         return {"id": f"C06-perm-{ctx.seed}-{k}", "files": [{"path": "main.idl", "nodes": nodes}], "main": "main.idl", "incdirs": []}
 
     work = [("valid", gen.gen_case(ctx.rng, opts, cid=f"C06-{ctx.seed}-{i}")) for i in range(n)]
+    # fixed: every struct shape of the coverage corpora (objects at the front / middle / only in
+    # nested structs, arrays of nested structs) and chains nested 4 deep with array counts > 1
+    # at alternating levels
+    for cov in (gen.coverage_case("C06-coverage"), gen.coverage_case2("C06-coverage2"), gen.nesting_case(4, 0, cid="C06-nest"),
+                gen.nesting_case(3, 0, cid="C06-nest")):
+        cov = dict(cov)
+        cov.pop("langs", None)
+        work.append(("valid", cov))
+    deep = [{"k": "struct", "name": "Pt", "fields": [{"type": "uint16", "count": 1, "name": "x"}, {"type": "uint16", "count": 1, "name": "y"}]},
+            {"k": "struct", "name": "Cell", "fields": [{"type": "Pt", "count": 1, "name": "pos"}, {"type": "uint32", "count": 1, "name": "colour"}]},
+            {"k": "struct", "name": "Row", "fields": [{"type": "Cell", "count": 3, "name": "cells"}]},
+            {"k": "struct", "name": "Grid", "fields": [{"type": "Row", "count": 2, "name": "rows"}, {"type": "Pt", "count": 2, "name": "corner"}]},
+            {"k": "interface", "name": "IGrid", "base": None, "members": [
+                {"k": "method", "name": "set", "optional": False, "doc": None, "params": [{"dir": "in", "type": "Grid", "arr": None, "name": "g"}, {"dir": "out", "type": "Row", "arr": None, "name": "r"}]}]}]
+    work.append(("valid", {"id": "C06-deep", "files": [{"path": "main.idl", "nodes": deep}], "main": "main.idl", "incdirs": []}))
     work += [("raw", permuted_case(i)) for i in range({"quick": 60, "thorough": 1500}[ctx.tier])]
     work += [("raw", raw_case(i)) for i in range({"quick": 150, "thorough": 3000}[ctx.tier])]
     hist["raw_rejected"] = 0
